@@ -91,6 +91,8 @@ struct h2con {
     uint8_t n_refused_stream;
     uint8_t n_discarded_headers;
     uint8_t n_recv_rst_stream;
+    uint8_t hpack_tsz_update;          /* HPACK table size update pending */
+    uint32_t hpack_tsz_min;            /* (smallest size since prior block)*/
 };
 typedef struct h2con h2con;
 
